@@ -409,7 +409,13 @@ def fingerprint(vi):
                      tuple(tuple(GEN_FRESH.sub('x#__fresh', str(n))
                                  for n in sub)
                            for sub in tg.subsets[tg.index:]),
-                     st.get('reduced'), st.get('tests_success'))
+                     st.get('reduced'), st.get('tests_success'),
+                     # does each worker's cached hash name the current input?
+                     # (a cache whose hash and content disagree is a state of
+                     # its own)
+                     tuple(g.get('__cached_exprs_hash') == (
+                         hash(tg.pickled_exprs) if tg.pickled_exprs else None)
+                         for g in vi.pool.wglobals))
         if name == 'reduce' and mod == 'ddsmt.strategy_ddmin':
             loc = f.f_locals
             main = ('D', str(loc.get('mut')), loc.get('nreduced_round'),
@@ -426,6 +432,23 @@ def fingerprint(vi):
     for r, sk in zip(vi.O, vi.Oseq):
         o_sum.append(sk + (_result_summary(r), ))
     memo = tuple(sorted(rt.memo.items())) if rt.memo else ()
+    pend = []
+    for th in getattr(rt, 'pending_threads', ()):
+        args = []
+        for a in getattr(th, '_args', ()) or ():
+            try:
+                args.append(_norm_tokens_of(a))
+            except Exception:  # noqa
+                args.append(repr(a)[:80])
+        pend.append(tuple(args))
+    # the lazily filled sort cache is shared between the main loop and the
+    # task generator: what it holds (structural keys) is part of the state
+    from ddsmt import smtlib
+    cache = smtlib.__dict__.get('__get_sort_cache') or {}
+    sorts = tuple(sorted((GEN_FRESH.sub('x#__fresh', str(k)), str(v))
+                         for k, v in cache.items()
+                         if not isinstance(k, int)))
+    memo = (memo, tuple(pend), hash(sorts))
     return hash((main, vi.seq, vi.done, vi.flag(),
                  tuple(q[1] for q in vi.Q),
                  tuple((e['seq'], e['after_T'], e['worker']) for e in vi.R),
@@ -699,8 +722,12 @@ def install():
         vi = rt.active_iter if rt is not None else None
         if vi is not None and not vi.in_pull and not vi.done and \
                 rt.worker is None:
-            c = rt.choose(('preempt-reset', ), 3, 0, 'sched')
-            for _ in range(c):
+            # how far the generator gets while the tables are empty
+            steps = (0, 1, 3, 10, 40)
+            c = rt.choose(('preempt-reset', ), len(steps), 0, 'sched')
+            for _ in range(steps[c]):
+                if vi.done:
+                    break
                 rt.stat('producer_steps_during_table_rebuild')
                 vi.pull()
 
@@ -741,6 +768,7 @@ def install():
 
     tmpfiles.os = OsProxy()
     _INSTALLED = True
+    snapshot_module_defaults()
 
 
 class _ListHandler(logging.Handler):
@@ -757,10 +785,42 @@ class _ListHandler(logging.Handler):
 _HANDLER = None
 
 
+_MODULE_DEFAULTS = None
+
+
+def _simple(v):
+    return v is None or isinstance(v, (str, int, float, bool))
+
+
+def snapshot_module_defaults():
+    """Remember the simple module-level values of every ddsmt module as they
+    are right after import, so that state a run leaves in them (caches,
+    memoised names, counters) cannot leak into the next execution."""
+    global _MODULE_DEFAULTS
+    if _MODULE_DEFAULTS is not None:
+        return
+    _MODULE_DEFAULTS = {}
+    for name, mod in list(sys.modules.items()):
+        if name.startswith('ddsmt.') and mod is not None and \
+                not name.startswith('ddsmt.tests'):
+            _MODULE_DEFAULTS[name] = {
+                k: v for k, v in mod.__dict__.items()
+                if k.startswith('__') and not k.endswith('__') and _simple(v)
+            }
+
+
+def restore_module_defaults():
+    for name, vals in (_MODULE_DEFAULTS or {}).items():
+        mod = sys.modules.get(name)
+        if mod is not None:
+            mod.__dict__.update(vals)
+
+
 def reset_process_state():
     from ddsmt import (checker, debug_utils, options, progress, smtlib,
                        strategy_ddmin, tmpfiles)
     global _HANDLER
+    restore_module_defaults()
     options.__dict__['__PARSED_ARGS'] = None
     debug_utils.Profiler.enabled = False
     debug_utils.__dict__['__DIFF_ID'] = 0
@@ -870,6 +930,29 @@ def run_once(scn, ch, fault=None, before_main=None):
         raise HardExit(code)
 
     os._exit = fake_exit
+    import threading
+    real_start = threading.Thread.start
+    pending = []
+    rt.pending_threads = pending
+
+    def controlled_start(self):
+        # a thread started by the code under test from the main thread: run
+        # its body now (what a sequential reading of the code suggests) or,
+        # as a schedule deviation, only when main() is about to return
+        if Runtime.current is rt and \
+                threading.current_thread() is threading.main_thread():
+            c = rt.choose(('thread-start', len(pending)), 2, 0, 'sched')
+            rt.stat('threads_started_by_code_under_test')
+            if c == 0:
+                self.run()
+            else:
+                pending.append(self)
+            self._started.set()
+            self._is_stopped = True
+            return
+        return real_start(self)
+
+    threading.Thread.start = controlled_start
     try:
         if before_main:
             before_main(rt)
@@ -892,8 +975,15 @@ def run_once(scn, ch, fault=None, before_main=None):
             x.crash = (type(e).__name__, str(e),
                        ''.join(traceback.format_exception(
                            type(e), e, e.__traceback__))[-1500:])
+        # deferred threads of the code under test run when main() is done
+        for th in pending:
+            try:
+                th.run()
+            except Exception:  # noqa
+                pass
     finally:
         os._exit = real_exit
+        threading.Thread.start = real_start
         sys.stdout, sys.stderr = old_out, old_err
         sys.argv = saved_argv
         Runtime.current = None
